@@ -30,6 +30,7 @@ type c18Line struct {
 var c18IPs = []string{"0.0.0.0", "127.0.0.1", "192.168.1.10", "10.0.0.1", "255.255.255.255", "::", "::1", "2001:db8::1", "fe80::1", "::ffff:1.2.3.4", "::ffff:0:0", "1.1.1.1", "fe80::1%eth0", "0:0:0:0:0:0:0:1", "2001:DB8::A", "0000:0000:0000:0000:0000:ffff:192.168.100.200", "0:0:0:0:0:ffff:192.168.1.1", "ffff:ffff:ffff:ffff:ffff:ffff:ffff:ffff"}
 
 var c18Labels = []string{"example", "ads", "tracker", "a", "x1", "my-host", "cdn", "www", "sub", "test", "zz", "longer-label-with-dashes", "under_score", "9to5", "xn--p1ai", gen.Label63, "cafe", "bad", "abc", "fe", "dead", "beef", "0", "00"}
+var c18UTF8Labels = []string{"voil\u00e0", "\u0443\u0441\u043f\u0435\u0445", "\u516c\u53f8", "b\u00fccher", "tsch\u00fc\u00df", "\u65e5\u672c", "na\u00efve", "\u0445\u043e\u0441\u0442"}
 var c18TLDs = []string{"org", "com", "net", "local", "co.uk", "io", "ru", "xn--p1ai", "lan", "de", "ee", "be", "cafe", "ca", "xn--vermgensberater-ctb", "xn--vermgensberatung-pwb", "xn--mgbc0a9azcg", "xn--80adxhks", "xn--ab-cd"}
 
 func c18Name(c *core.Ctx, bare bool) string {
@@ -47,6 +48,12 @@ func c18Name(c *core.Ctx, bare bool) string {
 			l = "under-score"
 		}
 		parts = append(parts, l)
+	}
+	if !bare && c.Rng.Intn(10) == 0 {
+		// Names written in UTF-8 instead of punycode are names like any other
+		// after an address (their bytes include 0x85 and 0xa0, which are blanks
+		// in Latin-1 / as single code points).
+		parts[c.Rng.Intn(len(parts))] = c18UTF8Labels[c.Rng.Intn(len(c18UTF8Labels))]
 	}
 	if !bare && c.Rng.Intn(6) == 0 {
 		// Single-label names are fine after an address.
@@ -308,7 +315,7 @@ func c18Run(c *core.Ctx, idx int) {
 		if dir, derr := os.MkdirTemp(filepath.Join(c.Env.VerifDir, ".work"), "c18f."); derr == nil {
 			defer os.RemoveAll(dir)
 			fn := filepath.Join(dir, "hosts.txt")
-			if os.WriteFile(fn, []byte(util.LinesEOL(texts, []string{"\n", "\r\n"}[c.Rng.Intn(2)])), 0o644) == nil {
+			if os.WriteFile(fn, []byte(util.ChopEOL(util.LinesEOL(texts, []string{"\n", "\r\n"}[c.Rng.Intn(2)]))), 0o644) == nil {
 				if fl, ferr := filterlist.NewFileRuleList(0, fn, false); ferr == nil {
 					if fs, serr := filterlist.NewRuleStorage([]filterlist.RuleList{fl}); serr == nil {
 						storage = fs
